@@ -1,0 +1,137 @@
+//! C34 (Immix lines): re-exports and read-only accessors of the crate-private Immix line / block
+//! / space items.  No behaviour of their own: every function forwards to the real item.
+
+pub use crate::policy::immix::block::{Block, BlockState};
+pub use crate::policy::immix::line::Line;
+pub use crate::policy::immix::ImmixSpace;
+
+use crate::policy::space::Space;
+use crate::util::linear_scan::Region;
+use crate::util::Address;
+use crate::vm::VMBinding;
+use std::sync::atomic::Ordering;
+
+/// `Line::BYTES`
+pub const LINE_BYTES: usize = Line::BYTES;
+/// `Block::BYTES`
+pub const BLOCK_BYTES: usize = Block::BYTES;
+/// `Block::LINES`
+pub const LINES_IN_BLOCK: usize = Block::LINES;
+/// `Line::RESET_MARK_STATE`
+pub const RESET_MARK_STATE: u8 = Line::RESET_MARK_STATE;
+/// `Line::MAX_MARK_STATE`
+pub const MAX_MARK_STATE: u8 = Line::MAX_MARK_STATE;
+/// `policy::immix::BLOCK_ONLY`
+pub const BLOCK_ONLY: bool = crate::policy::immix::BLOCK_ONLY;
+/// `policy::immix::MARK_LINE_AT_SCAN_TIME`
+pub const MARK_LINE_AT_SCAN_TIME: bool = crate::policy::immix::MARK_LINE_AT_SCAN_TIME;
+
+/// `BlockState::from(u8)` (decode).
+pub fn block_state_decode(byte: u8) -> BlockState {
+    BlockState::from(byte)
+}
+
+/// `u8::from(BlockState)` (encode).
+pub fn block_state_encode(state: BlockState) -> u8 {
+    u8::from(state)
+}
+
+/// Start of the Immix block containing `addr`.
+pub fn block_start(addr: Address) -> Address {
+    Block::from_unaligned_address(addr).start()
+}
+
+/// `Block::get_state` of the block containing `addr`.
+pub fn block_state(addr: Address) -> BlockState {
+    Block::from_unaligned_address(addr).get_state()
+}
+
+/// `Block::set_state` followed by `Block::get_state` on the block containing `addr`, restoring
+/// the previous state afterwards: returns what `get_state` read back.
+pub fn block_state_store_load(addr: Address, state: BlockState) -> BlockState {
+    let b = Block::from_unaligned_address(addr);
+    let old = b.get_state();
+    b.set_state(state);
+    let got = b.get_state();
+    b.set_state(old);
+    got
+}
+
+/// The raw byte of `Block::MARK_TABLE` for the block containing `addr`.
+pub fn block_state_byte(addr: Address) -> u8 {
+    Block::MARK_TABLE.load_atomic::<u8>(block_start(addr), Ordering::SeqCst)
+}
+
+/// `Block::is_defrag_source` of the block containing `addr`.
+pub fn block_is_defrag_source(addr: Address) -> bool {
+    Block::from_unaligned_address(addr).is_defrag_source()
+}
+
+/// The raw byte of `Line::MARK_TABLE` for the line containing `addr`.
+pub fn line_mark_byte(addr: Address) -> u8 {
+    Line::MARK_TABLE.load_atomic::<u8>(Line::from_unaligned_address(addr).start(), Ordering::SeqCst)
+}
+
+/// `Line::is_marked(state)` for the line containing `addr`.
+pub fn line_is_marked(addr: Address, state: u8) -> bool {
+    Line::from_unaligned_address(addr).is_marked(state)
+}
+
+/// The `ImmixSpace` of the plan (any of its spaces, visited in `for_each_space` order) whose
+/// address range contains `addr`.
+pub fn immix_space_of<VM: VMBinding>(mmtk: &'static crate::MMTK<VM>, addr: Address) -> Option<&'static ImmixSpace<VM>> {
+    let mut found: Option<&'static ImmixSpace<VM>> = None;
+    mmtk.get_plan().for_each_space(&mut |s: &dyn Space<VM>| {
+        if found.is_none() && s.address_in_space(addr) {
+            if let Some(ix) = s.downcast_ref::<ImmixSpace<VM>>() {
+                // # Safety: the plan (and its spaces) live as long as the MMTK instance.
+                found = Some(unsafe { &*(ix as *const ImmixSpace<VM>) });
+            }
+        }
+    });
+    found
+}
+
+/// Name of the space.
+pub fn space_name<VM: VMBinding>(space: &ImmixSpace<VM>) -> &'static str {
+    space.get_name()
+}
+
+/// Current value of `ImmixSpace::line_mark_state`.
+pub fn line_mark_state<VM: VMBinding>(space: &ImmixSpace<VM>) -> u8 {
+    space.line_mark_state.load(Ordering::Acquire)
+}
+
+/// Current value of `ImmixSpace::line_unavail_state` (private field).
+pub fn line_unavail_state<VM: VMBinding>(space: &ImmixSpace<VM>) -> u8 {
+    space.verif_line_unavail_state()
+}
+
+/// `ImmixSpace::reusable_blocks.len()`.
+pub fn reusable_blocks_len<VM: VMBinding>(space: &ImmixSpace<VM>) -> usize {
+    space.reusable_blocks.len()
+}
+
+/// The real `ImmixSpace::get_next_available_lines(search_start)` where `search_start` is the line
+/// containing `addr`; the result as (start address, end address) of the hole.
+pub fn next_available_lines<VM: VMBinding>(space: &ImmixSpace<VM>, addr: Address) -> Option<(Address, Address)> {
+    space
+        .get_next_available_lines(Line::from_unaligned_address(addr))
+        .map(|(s, e)| (s.start(), e.start()))
+}
+
+/// All holes of the block containing `addr`, as the allocator would find them: the real hole
+/// search is started at line 0 and restarted at the end of every hole it returns.
+pub fn block_holes<VM: VMBinding>(space: &ImmixSpace<VM>, addr: Address) -> Vec<(Address, Address)> {
+    let block = Block::from_unaligned_address(addr);
+    let mut holes = vec![];
+    let mut cursor = block.start_line();
+    while let Some((s, e)) = space.get_next_available_lines(cursor) {
+        holes.push((s.start(), e.start()));
+        if e == block.end_line() {
+            break;
+        }
+        cursor = e;
+    }
+    holes
+}
